@@ -352,15 +352,15 @@ Qed.
 (* ---------- every role of every tree ---------- *)
 Section LtreeInd.
   Variable P : ltree -> Prop.
-  Hypothesis HN : forall n lv ch, Forall P ch -> P (LNode n lv ch).
+  Hypothesis HN : forall n lv hid ch, Forall P ch -> P (LNode n lv hid ch).
   Fixpoint ltree_ind' (t : ltree) : P t :=
     match t with
-    | LNode n lv ch =>
-      HN n lv ch ((fix go (l : list ltree) : Forall P l :=
-                     match l with
-                     | [] => Forall_nil P
-                     | c :: r => Forall_cons c (ltree_ind' c) (go r)
-                     end) ch)
+    | LNode n lv hid ch =>
+      HN n lv hid ch ((fix go (l : list ltree) : Forall P l :=
+                         match l with
+                         | [] => Forall_nil P
+                         | c :: r => Forall_cons c (ltree_ind' c) (go r)
+                         end) ch)
     end.
 End LtreeInd.
 
@@ -374,21 +374,36 @@ Proof.
     + destruct (IH _ H) as (j & c' & Hc & Hx). exists j, c'. split; [right; exact Hc|exact Hx].
 Qed.
 
-Lemma nodes_path t : forall anc raddr a n p,
-  In (a, n, p) (nodes anc raddr t) -> exists roles, roles <> [] /\ p = roles ++ anc.
+(* the path of a role: its visible level, its hidden levels, then possibly more roles, then
+   what the tree was loaded under *)
+Lemma nodes_path t : forall anc raddr a n hid p,
+  In (a, n, hid, p) (nodes anc raddr t) ->
+  exists lv rest, p = lv :: hid ++ rest ++ anc.
 Proof.
-  induction t as [nm lv ch IH] using ltree_ind'. intros anc raddr a n p H.
+  induction t as [nm lv hd0 ch IH] using ltree_ind'. intros anc raddr a n hid p H.
   cbn [nodes] in H. destruct H as [E|H].
-  - inversion E; subst. exists [lv]. split; [discriminate|reflexivity].
+  - inversion E; subst. exists lv, []. reflexivity.
   - apply in_flat_mapi in H. destruct H as (j & c & Hc & Hx).
-    rewrite Forall_forall in IH. destruct (IH c Hc _ _ _ _ _ Hx) as (roles & Hne & ->).
-    exists (roles ++ [lv]). split.
-    + destruct roles; discriminate.
-    + rewrite <- app_assoc. reflexivity.
+    rewrite Forall_forall in IH. destruct (IH c Hc _ _ _ _ _ _ Hx) as (lv' & rest & ->).
+    exists lv', (rest ++ lv :: hd0). rewrite <- !app_assoc. reflexivity.
 Qed.
 
-Lemma forest_nodes_path anc ts a n p :
-  In (a, n, p) (forest_nodes anc ts) -> exists roles, roles <> [] /\ p = roles ++ anc.
+(* the roles of the subtree of a node all have the node's visible and hidden levels, in this
+   order, right above what the node was loaded under *)
+Lemma nodes_below t : forall anc raddr a n hid p,
+  In (a, n, hid, p) (nodes anc raddr t) ->
+  match t with LNode _ lv hd0 _ => exists roles, p = roles ++ lv :: hd0 ++ anc end.
+Proof.
+  destruct t as [nm lv hd0 ch]. intros anc raddr a n hid p H.
+  cbn [nodes] in H. destruct H as [E|H].
+  - inversion E; subst. exists []. reflexivity.
+  - apply in_flat_mapi in H. destruct H as (j & c & Hc & Hx).
+    destruct (nodes_path c _ _ _ _ _ _ Hx) as (lv' & rest & ->).
+    exists (lv' :: hid ++ rest). cbn [app]. rewrite <- !app_assoc. reflexivity.
+Qed.
+
+Lemma forest_nodes_path anc ts a n hid p :
+  In (a, n, hid, p) (forest_nodes anc ts) -> exists lv rest, p = lv :: hid ++ rest ++ anc.
 Proof.
   unfold forest_nodes. intro H. apply in_flat_mapi in H.
   destruct H as (j & t & _ & Hx). eapply nodes_path. exact Hx.
@@ -396,7 +411,7 @@ Qed.
 
 Lemma every_role env t ops vs w :
   run_tree env t ops = Some vs -> In w vs ->
-  exists roles, roles <> [] /\ w_own w = hd (mkLevel [] [] []) roles /\
+  exists above, let roles := w_own w :: w_hid w ++ above in
     (forall k, assoc k (w_stack w) = first_hit k (sources (roles ++ [env]))) /\
     (forall k, assoc k (l_defaults (w_maps w)) = first_hit k (chain l_defaults (roles ++ [env]))) /\
     (forall k, assoc k (l_vars (w_maps w)) = first_hit k (chain l_vars (roles ++ [env]))) /\
@@ -404,12 +419,69 @@ Lemma every_role env t ops vs w :
 Proof.
   unfold run_tree. destruct (load [env] [] t) as [f|]; [|discriminate].
   intros E Hw. inversion E; subst. apply in_map_iff in Hw.
-  destruct Hw as ([[a n] p] & <- & Hin).
-  destruct (forest_nodes_path _ _ _ _ _ Hin) as (roles & Hne & ->).
-  exists roles. split; [exact Hne|]. cbn [view_of w_own w_stack w_maps l_defaults l_vars l_user].
-  split; [destruct roles; [contradiction|reflexivity]|].
+  destruct Hw as ([[[a n] hid] p] & <- & Hin).
+  destruct (forest_nodes_path _ _ _ _ _ _ Hin) as (lv & rest & ->).
+  exists rest. cbn [view_of w_own w_hid w_stack w_maps l_defaults l_vars l_user hd].
+  replace ((lv :: hid ++ rest) ++ [env]) with (lv :: hid ++ rest ++ [env])
+    by (cbn [app]; rewrite <- app_assoc; reflexivity).
   split; [intro k; apply assoc_consolidated|].
   repeat split; intro k; apply assoc_flattened.
+Qed.
+
+(* ---------- include roles ---------- *)
+(* loading an include role: its own level is resolved like any role's, the sub-workflow root's
+   level is resolved under it, and every role of the included subtree (the include role itself:
+   roles = []) has the root's level and then the include role's own level right above the
+   include role's ancestors *)
+Lemma include_levels anc locals nm d v sd sv ch ts :
+  load anc locals (RIncl nm d v sd sv ch) = Some ts ->
+  exists n lvi sn lvs,
+    resolve_level anc locals nm d v = Some (n, lvi) /\
+    resolve_level (lvi :: anc) [] None sd sv = Some (sn, lvs) /\
+    forall a n' hid p, In (a, n', hid, p) (forest_nodes anc ts) ->
+      exists roles, p = roles ++ lvs :: lvi :: anc.
+Proof.
+  cbn [load]. destruct (resolve_level anc locals nm d v) as [[n lvi]|] eqn:E1; [|discriminate].
+  destruct (resolve_level (lvi :: anc) [] None sd sv) as [[sn lvs]|] eqn:E2; [|discriminate].
+  destruct (opt_concat_map _ ch) as [kids|]; [|discriminate].
+  intro E. inversion E; subst. exists n, lvi, sn, lvs.
+  split; [reflexivity|]. split; [exact E2|].
+  intros a n' hid p H. unfold forest_nodes in H. cbn [flat_mapi] in H. rewrite app_nil_r in H.
+  exact (nodes_below _ _ _ _ _ _ _ H).
+Qed.
+
+(* a var of the include role (for instance the iterator local that generated it) is what the
+   included subtree sees, unless a user var on the path or a var below the include role's own
+   level defines the key *)
+Lemma include_var_reaches_subtree roles lvs lvi anc k x :
+  first_hit k (chain l_user (roles ++ lvs :: lvi :: anc)) = None ->
+  first_hit k (chain l_vars (roles ++ [lvs])) = None ->
+  assoc k (l_vars lvi) = Some x ->
+  assoc k (consolidated (roles ++ lvs :: lvi :: anc)) = Some x.
+Proof.
+  intros Hu Hv Hx. rewrite assoc_consolidated. unfold sources.
+  rewrite first_hit_app, Hu.
+  replace (roles ++ lvs :: lvi :: anc) with ((roles ++ [lvs]) ++ lvi :: anc)
+    by (rewrite <- app_assoc; reflexivity).
+  unfold chain at 1. rewrite map_app. fold (chain l_vars (roles ++ [lvs])).
+  rewrite !first_hit_app, Hv. cbn [map first_hit]. rewrite Hx. reflexivity.
+Qed.
+
+(* a default of the include role outranks the defaults of all its ancestors, environment-wide
+   ones included, for the whole included subtree *)
+Lemma include_default_reaches_subtree roles lvs lvi anc k x :
+  first_hit k (chain l_user (roles ++ lvs :: lvi :: anc)) = None ->
+  first_hit k (chain l_vars (roles ++ lvs :: lvi :: anc)) = None ->
+  first_hit k (chain l_defaults (roles ++ [lvs])) = None ->
+  assoc k (l_defaults lvi) = Some x ->
+  assoc k (consolidated (roles ++ lvs :: lvi :: anc)) = Some x.
+Proof.
+  intros Hu Hv Hd Hx. rewrite assoc_consolidated. unfold sources.
+  rewrite first_hit_app, Hu, first_hit_app, Hv.
+  replace (roles ++ lvs :: lvi :: anc) with ((roles ++ [lvs]) ++ lvi :: anc)
+    by (rewrite <- app_assoc; reflexivity).
+  unfold chain. rewrite map_app. fold (chain l_defaults (roles ++ [lvs])).
+  rewrite first_hit_app, Hd. cbn [map first_hit]. rewrite Hx. reflexivity.
 Qed.
 
 (* ---------- task level ---------- *)
